@@ -15,6 +15,8 @@ FLAV = {
     "j": "Favour changes to the ORDER and COMPLETENESS of what the command-line tools do: operations reordered, an early return or early exit added, a resource left open or closed too early, a later output depending on an earlier one, partial results left behind, defaults of options changed, an option no longer forwarded to one of several similar calls.",
     "k": "Favour changes where every file that is written is written correctly, but the DECISION logic is wrong in particular histories or states: which of several files is consulted, in which order, what happens when only one of them is missing, equal timestamps, a file replaced rather than edited, a leftover from an interrupted run, a path reached through a link.",
     "l": "Favour changes whose effect depends on SCALE or on a size relation that small examples do not reach: thresholds inside helpers (for example a fast path above some size), behaviour that differs only when a length is an exact multiple of another, only for lines wider or narrower than the buffer, only beyond some number of records, rows or chunks, only for the second and later records of a file.",
+    "m": "Every change must look like a well-meant PERFORMANCE optimisation: caching or memoising something, lazy evaluation, batching writes or reads, reusing objects, buffers or file handles, skipping work that 'cannot have changed', precomputing, short-circuiting - with the mistake hidden in what the optimisation forgets (invalidation, keying, aliasing, bounds, ordering).",
+    "n": "Every change must look like a well-meant ROBUSTNESS improvement: extra exception handling, a retry, cleaning up partial results on failure, validating inputs or cached data, falling back to an alternative path, defaulting a missing value - with the mistake hidden in what the new handling swallows, deletes, accepts or repeats.",
 }
 T = """You are helping to evaluate a verification harness by writing *seeded defects* for an open-source Python project (sanger-tol/agp-tpf-utils: CLI utilities for AGP/TPF genome assembly files with a streaming FASTA indexer/writer). This is authorised mutation-testing work on a scratch copy; nothing you write is ever merged.
 
